@@ -156,6 +156,8 @@ def s1_asset_set(ctx, rule):
             ctx.undecided(rule, 'the sizer input is zero weights over the full asset set overlaid by the optimiser weights', sz[0].site, fmt(sz[0].args.get('weights', ZERO))[:200])
             continue
         n += 1
+        while (call_is(full, 'TUPLE') or call_is(full, 'LIST')) and len(full[2]) == 1 and not full[3]:
+            full = full[2][0]           # the sorted assets as a tuple (a hashable key, an immutable hand-out): the same sequence
         srt = call_is(full, 'SORTED') and not full[3]
         ctx.require(srt, rule, 'the asset list is sorted (deterministic, ascending)', sz[0].site, fmt(full)[:120], key='%s|sorted' % rule)
         ops = union_operands(full[2][0] if srt else full)
